@@ -249,12 +249,15 @@ class _Simu(_IObserver, _params.Updatable, ABC):
 
         reaction = np.zeros(K.shape[0], dtype=float)
 
-        reaction[dofs] = K[dofs] @ self._Get_u_n(problemType)
+        # the matrices are bordered with the Lagrange multipliers (connections), the dof vectors are not
+        n = self.mesh.Nn * self.Get_dof_n(problemType)
+
+        reaction[dofs] = K[dofs][:, :n] @ self._Get_u_n(problemType)
         if self.algo == AlgoType.parabolic:
-            reaction[dofs] += C[dofs] @ self._Get_v_n(problemType)
+            reaction[dofs] += C[dofs][:, :n] @ self._Get_v_n(problemType)
         elif self.algo in AlgoType.Get_Hyperbolic_Types():
-            reaction[dofs] += C[dofs] @ self._Get_v_n(problemType)
-            reaction[dofs] += M[dofs] @ self._Get_a_n(problemType)
+            reaction[dofs] += C[dofs][:, :n] @ self._Get_v_n(problemType)
+            reaction[dofs] += M[dofs][:, :n] @ self._Get_a_n(problemType)
 
         if MPI_SIZE > 1:
             return Reduce_sum(reaction)
